@@ -137,6 +137,20 @@ func concatMaps(ms reflect.Value) (reflect.Value, error) {
 		vals := rms.MapIndex(key)
 
 		anyVals := vals.Interface().([]any)
+
+		// nil values carry nothing to concat: a key whose values are all nil stays nil
+		nonNil := make([]any, 0, len(anyVals))
+		for _, av := range anyVals {
+			if av != nil {
+				nonNil = append(nonNil, av)
+			}
+		}
+		if len(nonNil) == 0 {
+			ret.SetMapIndex(key, reflect.Zero(typ.Elem()))
+			continue
+		}
+		anyVals = nonNil
+
 		v, err := toSliceValue(anyVals)
 		if err != nil {
 			return reflect.Value{}, err
